@@ -768,8 +768,21 @@ func (p *proxy) forwardProduce(ctx context.Context, header *protocol.RequestHead
 			if r.conn != nil {
 				pool.Return(r.target, r.conn)
 			}
+			// Reconcile the reply against what was sent: entries for partitions
+			// that were not requested (or were already answered) are dropped,
+			// and requested partitions the backend left out get an error entry
+			// below, so the client always sees one result per partition.
+			pending := make(pendingPartitions)
+			for _, topic := range r.subReq.Topics {
+				for _, part := range topic.Partitions {
+					pending.add(topic.Topic, part.Partition)
+				}
+			}
 			for _, topic := range r.subResp.Topics {
 				for _, part := range topic.Partitions {
+					if !pending.take(topic.Topic, part.Partition) {
+						continue
+					}
 					if part.ErrorCode == protocol.NOT_LEADER_OR_FOLLOWER {
 						if failedPartitions == nil {
 							failedPartitions = make(map[string]map[int32]bool)
@@ -785,6 +798,20 @@ func (p *proxy) forwardProduce(ctx context.Context, header *protocol.RequestHead
 						tr := findOrAddTopicResponse(merged, topic.Topic)
 						tr.Partitions = append(tr.Partitions, part)
 					}
+				}
+			}
+			for _, topic := range r.subReq.Topics {
+				for _, part := range topic.Partitions {
+					if !pending.take(topic.Topic, part.Partition) {
+						continue
+					}
+					p.logger.Warn("produce reply is missing a requested partition", "target", r.target, "topic", topic.Topic, "partition", part.Partition)
+					tr := findOrAddTopicResponse(merged, topic.Topic)
+					tr.Partitions = append(tr.Partitions, kmsg.ProduceResponseTopicPartition{
+						Partition:  part.Partition,
+						ErrorCode:  protocol.UNKNOWN_SERVER_ERROR,
+						BaseOffset: -1,
+					})
 				}
 			}
 			if r.subResp.ThrottleMillis > merged.ThrottleMillis {
@@ -900,6 +927,27 @@ func (p *proxy) connectForAddr(ctx context.Context, addr string, exclude map[str
 		}
 	}
 	return p.connectBackendExcluding(ctx, exclude)
+}
+
+// pendingPartitions counts, per topic key, the partitions of a sub-request that
+// the backend's reply has not answered yet.
+type pendingPartitions map[string]map[int32]int
+
+func (pp pendingPartitions) add(topic string, partition int32) {
+	if pp[topic] == nil {
+		pp[topic] = make(map[int32]int)
+	}
+	pp[topic][partition]++
+}
+
+// take consumes one outstanding answer for the partition and reports whether
+// there was one.
+func (pp pendingPartitions) take(topic string, partition int32) bool {
+	if pp[topic][partition] == 0 {
+		return false
+	}
+	pp[topic][partition]--
+	return true
 }
 
 func findOrAddTopicResponse(resp *kmsg.ProduceResponse, name string) *kmsg.ProduceResponseTopic {
@@ -1649,6 +1697,17 @@ func fetchTopicKey(name string, id [16]byte) string {
 	return fmt.Sprintf("id:%x", id)
 }
 
+// fetchReplyKey identifies a topic the same way in a fetch sub-request and in
+// its reply, using what is on the wire at that version: the topic ID from v13
+// on (replies carry no name there, while the request's name may have been
+// resolved locally), the name before that.
+func fetchReplyKey(version int16, name string, id [16]byte) string {
+	if version >= 13 {
+		return fmt.Sprintf("id:%x", id)
+	}
+	return name
+}
+
 // groupFetchPartitionsByBroker groups partitions by owning broker. If include
 // is non-nil, only listed partitions are grouped. Unknown owners go under ""
 // for round-robin.
@@ -1760,8 +1819,18 @@ func (p *proxy) forwardFetch(ctx context.Context, header *protocol.RequestHeader
 			if r.subResp.ErrorCode != 0 {
 				merged.ErrorCode = r.subResp.ErrorCode
 			}
+			// Reconcile the reply against what was sent, as forwardProduce does.
+			pending := make(pendingPartitions)
+			for _, topic := range r.subReq.Topics {
+				for _, part := range topic.Partitions {
+					pending.add(fetchReplyKey(header.APIVersion, topic.Topic, topic.TopicID), part.Partition)
+				}
+			}
 			for _, topic := range r.subResp.Topics {
 				for _, part := range topic.Partitions {
+					if !pending.take(fetchReplyKey(header.APIVersion, topic.Topic, topic.TopicID), part.Partition) {
+						continue
+					}
 					if part.ErrorCode == protocol.NOT_LEADER_OR_FOLLOWER {
 						topicName := topic.Topic
 						if topicName == "" {
@@ -1782,6 +1851,19 @@ func (p *proxy) forwardFetch(ctx context.Context, header *protocol.RequestHeader
 						tr := findOrAddFetchTopicResponse(merged, topic.Topic, topic.TopicID)
 						tr.Partitions = append(tr.Partitions, part)
 					}
+				}
+			}
+			for _, topic := range r.subReq.Topics {
+				for _, part := range topic.Partitions {
+					if !pending.take(fetchReplyKey(header.APIVersion, topic.Topic, topic.TopicID), part.Partition) {
+						continue
+					}
+					p.logger.Warn("fetch reply is missing a requested partition", "target", r.target, "topic", fetchTopicKey(topic.Topic, topic.TopicID), "partition", part.Partition)
+					tr := findOrAddFetchTopicResponse(merged, topic.Topic, topic.TopicID)
+					tr.Partitions = append(tr.Partitions, kmsg.FetchResponseTopicPartition{
+						Partition: part.Partition,
+						ErrorCode: protocol.UNKNOWN_SERVER_ERROR,
+					})
 				}
 			}
 			if r.subResp.ThrottleMillis > merged.ThrottleMillis {
